@@ -435,10 +435,11 @@ impl MonitorSet {
         let msg = format!("{}: {}", kind, text);
         let norm = msg.replace(' ', "_");
         for ig in &self.ignore {
-            if !ig.is_empty() && norm.contains(ig.as_str()) {
-                *self.ignored.entry(kind.to_string()).or_insert(0) += 1;
+            if !ig.is_empty() && (norm.contains(ig.as_str()) || msg.contains(ig.as_str())) {
+                *self.ignored.entry(ig.clone()).or_insert(0) += 1;
                 if !kind.starts_with("panic") {
                     // the ghost state is no longer meaningful for this run: abandon it
+                    // (after a panic the node is dead and the run goes on with the others)
                     self.halt = true;
                 }
                 return;
@@ -475,7 +476,7 @@ impl MonitorSet {
         self.ids = sim.nodes.iter().map(|n| n.id).collect();
         self.ensure(sim.nodes.len());
         if let Some(n) = sim.nodes.first() {
-            let cs = n.store.initial_state().unwrap().conf_state;
+            let cs = n.durable.initial_state().unwrap().conf_state;
             self.conf_after.insert(0, conf_key(&cs));
         }
         if self.inj("election_safety") {
@@ -535,6 +536,9 @@ impl MonitorSet {
         }
     }
 
+    /// The oldest written Ready of node i became durable.
+    pub fn on_fsync(&mut self, _sim: &Sim, _i: usize) {}
+
     pub fn on_crash(&mut self, _sim: &Sim, i: usize) {
         self.ensure(i + 1);
         self.snaps[i] = None;
@@ -560,15 +564,10 @@ impl MonitorSet {
                 let flat = m.replace('\n', " ");
                 let first_line = m.lines().next().unwrap_or("");
                 let first_line = first_line.split(", raft_id").next().unwrap_or(first_line);
-                let mut head: String = first_line.chars().take(70).collect();
-                if head.starts_with("assertion") || head.starts_with("called `") || head.starts_with("attempt to") || head.starts_with("index out of") {
-                    // these messages do not identify the site: add the file and the source text at the
-                    // panic location, squeezed to one token (stable when lines move)
-                    let base = loc.rsplit('/').next().unwrap_or(loc);
-                    let file_base = base.split(':').next().unwrap_or(base);
-                    head = format!("{} @ {} {}", head, file_base, source_token(loc));
-                }
-                self.fail(&format!("panic:{}", head), format!("node {} (role {:?}, term {}) panicked in {} at {}: {}", pre.snap.id, pre.snap.role, pre.snap.term, call_brief(c), loc, flat));
+                let head: String = first_line.chars().take(90).collect();
+                // stable format: panic:<message> @ <file>:<line> [<source text at that line as one token>]
+                let kind = format!("panic:{} @ {} [{}]", head, loc, source_token(loc));
+                self.fail(&kind, format!("node {} (role {:?}, term {}) panicked in {}: {}", pre.snap.id, pre.snap.role, pre.snap.term, call_brief(c), flat));
             }
             return;
         }
@@ -598,8 +597,8 @@ impl MonitorSet {
 pub fn describe(sim: &Sim) -> Vec<String> {
     let mut out = vec![];
     for n in &sim.nodes {
-        let hs = n.store.initial_state().map(|s| s.hard_state).unwrap_or_default();
-        let st = format!("store(term {} vote {} commit {} first {} last {}) app_applied {}", hs.term, hs.vote, hs.commit, n.store.first_index().unwrap_or(0), n.store.last_index().unwrap_or(0), n.applied);
+        let hs = n.durable.initial_state().map(|s| s.hard_state).unwrap_or_default();
+        let st = format!("durable(term {} vote {} commit {} first {} last {}) live-store last {} unsynced Readies {} app_applied {}", hs.term, hs.vote, hs.commit, n.durable.first_index().unwrap_or(0), n.durable.last_index().unwrap_or(0), n.store.last_index().unwrap_or(0), n.unsynced.len(), n.applied);
         match n.driver.as_ref() {
             None => out.push(format!("node {} DOWN {}", n.id, st)),
             Some(d) => {
@@ -671,7 +670,7 @@ pub fn main(args: &[String]) {
     let only: Option<u64> = arg(args, "--run", "").parse().ok();
     let inject = arg(args, "--inject", "");
     let ignore_s = arg(args, "--ignore", "");
-    let ignore: Vec<String> = ignore_s.split(',').filter(|s| !s.is_empty()).map(|s| s.replace(' ', "_")).collect();
+    let ignore: Vec<String> = ignore_s.split(',').filter(|s| !s.is_empty()).map(|s| s.to_string()).collect();
     let strict = args.iter().any(|a| a == "--strict");
     let verbose = args.iter().any(|a| a == "--verbose");
     // By default the simulated application never calls campaign() on a node that is not a voter of
